@@ -30,6 +30,12 @@ conditional axis, or with a monotone one in rank ≥ 3) are covered by the
 correspondence + oracle of every run; inside them the class "Edgeworth present ∧ trapezoid with monotone conditional axis ∧ a third
 axis" genuinely violates the property (finding F-C01-a): `C01_counter_witness`.
 `C01_full` keeps the unrestricted statement visible.
+Well-formedness: `CfgWF` (no Edgeworth pair listed twice) or the weaker `CfgWFd` (a duplicated identical
+trust allowed: that is what acceptance gives); the class theorems are proved from `CfgWFd` (`…_d`).
+Companions: `Props/C01Constraint.lean` (the composite `latticeConstraintT` the driver runs: strict mode for
+every iteration count, what the non-strict mode guarantees, and "feasible ⇒ unchanged" for every stage
+and any trusts) and `Props/C01Accepted.lean` (everything restated for `verifyLattice r = .ok c`; `HTrap`
+isolates the part of `MixedClassWF` that is a class restriction).
 -/
 namespace Tfl.C01
 open Tfl Tfl.Lat
@@ -51,6 +57,23 @@ structure CfgWF (c : Cfg) : Prop where
   compat : c.edgeworth.Pairwise (fun a b => Compatible a b ∧ Compatible b a)
   bounds : BoundsWF c.lo c.hi
 
+/-- the same well-formedness facts WITHOUT the side condition "no Edgeworth pair listed twice":
+`verify_hyperparameters` rejects two trusts on one `(main, cond)` pair only when their directions
+differ, so an identical trust may be listed several times (it is then re-applied to a kernel that
+already satisfies it, i.e. as the identity). This is what acceptance gives
+(`Props/C01Accepted.lean`: `accepted_cfgWFd`); all class theorems below are proved from it
+(`…_d`), the `CfgWF` versions are corollaries. -/
+structure CfgWFd (c : Cfg) : Prop where
+  trust_wf : ∀ tr ∈ c.edgeworth ++ c.trapezoid, TrustWF c.sizes tr ∧ c.mono.getD tr.main false = true
+  compat : c.edgeworth.Pairwise (fun a b => a = b ∨ (Compatible a b ∧ Compatible b a))
+  bounds : BoundsWF c.lo c.hi
+
+theorem CfgWF.toD {c : Cfg} (h : CfgWF c) : CfgWFd c :=
+  ⟨h.trust_wf, h.compat.imp (fun hab => Or.inr hab), h.bounds⟩
+
+theorem CfgWFd.toWF_of_nil {c : Cfg} (h : CfgWFd c) (hne : c.edgeworth = []) : CfgWF c :=
+  ⟨h.trust_wf, by rw [hne]; exact List.Pairwise.nil, h.bounds⟩
+
 /-- **the unrestricted statement** (kept visible; false on the current tree: `C01_counter_witness`) -/
 def C01_full : Prop :=
   ∀ (c : Cfg), CfgWF c → ∀ w : W, Strict c (clipBounds c.lo c.hi (finalize c w))
@@ -61,12 +84,14 @@ theorem EdgeOK.congr {sizes : List Nat} {tr : Trust} {f g : W} (h : AgreeOn size
   rw [← eviol_agree h hr hi hj]
   exact hf idx hr i j hi hj
 
-/-- the Edgeworth stage: afterwards every listed trust holds and monotonicity is kept -/
+/-- the Edgeworth stage: afterwards every listed trust holds and monotonicity is kept. Two listed
+trusts are either IDENTICAL (a duplicate: the second application finds its trust satisfied) or act on
+different grids without exchanging the roles of an axis. -/
 theorem approxEdgeworth_spec (sizes : List Nat) :
     ∀ (trs : List Trust), (∀ tr ∈ trs, TrustWF sizes tr) →
-      trs.Pairwise (fun a b => Compatible a b ∧ Compatible b a) →
+      trs.Pairwise (fun a b => a = b ∨ (Compatible a b ∧ Compatible b a)) →
       ∀ (w : W) (done : List Trust), (∀ tr ∈ done, TrustWF sizes tr) →
-        (∀ a ∈ done, ∀ b ∈ trs, Compatible b a) → (∀ tr ∈ done, EdgeOK sizes tr w) →
+        (∀ a ∈ done, ∀ b ∈ trs, a = b ∨ Compatible b a) → (∀ tr ∈ done, EdgeOK sizes tr w) →
         (∀ tr, tr ∈ done ∨ tr ∈ trs → EdgeOK sizes tr (approxEdgeworth sizes trs w)) ∧
         (∀ d, MonoAx sizes d w → MonoAx sizes d (approxEdgeworth sizes trs w)) := by
   intro trs
@@ -86,10 +111,15 @@ theorem approxEdgeworth_spec (sizes : List Nat) :
       (fun a ha b hb => by
         rcases List.mem_append.mp ha with h | h
         · exact hcomp a h b (List.mem_cons_of_mem _ hb)
-        · simp at h; subst h; exact (hp.1 b hb).2)
+        · simp at h; subst h
+          rcases hp.1 b hb with e | e
+          · exact Or.inl e
+          · exact Or.inr e.2)
       (fun x hx => by
         rcases List.mem_append.mp hx with h | h
-        · exact edgeworthOne_keeps_other sizes t x hwt (hdwf x h) (hcomp x h t (List.mem_cons_self ..)) w (hd x h)
+        · rcases hcomp x h t (List.mem_cons_self ..) with e | e
+          · subst e; exact edgeworthOne_edgeOK sizes x hwt w
+          · exact edgeworthOne_keeps_other sizes t x hwt (hdwf x h) e w (hd x h)
         · simp at h; subst h; exact edgeworthOne_edgeOK sizes x hwt w)
     refine ⟨fun tr htr => ?_, fun d hm => ?_⟩
     · apply this.1
@@ -108,7 +138,7 @@ For every accepted configuration of this class and EVERY input kernel (e.g. what
 iterations returned, for every iteration count), the strict finalisation followed by the final
 clip returns a kernel that is monotone along every monotone dimension, satisfies every Edgeworth
 trust inequality and lies within the output bounds. -/
-theorem C01_strict_edgeworth_class (c : Cfg) (hwf : CfgWF c) (hnt : c.trapezoid = []) (w : W) :
+theorem C01_strict_edgeworth_class_d (c : Cfg) (hwf : CfgWFd c) (hnt : c.trapezoid = []) (w : W) :
     Strict c (clipBounds c.lo c.hi (finalize c w)) := by
   have hclipIn : InBounds c.sizes c.lo c.hi (clipBounds c.lo c.hi (finalize c w)) :=
     fun idx _ => clipBounds_in c.lo c.hi hwf.bounds _ idx
@@ -167,16 +197,23 @@ theorem C01_strict_edgeworth_class (c : Cfg) (hwf : CfgWF c) (hnt : c.trapezoid 
 /-- the same on the EXECUTABLE model that the correspondence check ties to the real code: for
 every table `t` (the Dykstra output), the values `runStage clip (finalizeT c t)` satisfy every
 strict constraint of a class-A configuration. -/
-theorem C01_exec_edgeworth_class (c : Cfg) (hwf : CfgWF c) (hnt : c.trapezoid = []) (t : Table) :
+theorem C01_exec_edgeworth_class_d (c : Cfg) (hwf : CfgWFd c) (hnt : c.trapezoid = []) (t : Table) :
     Strict c (runStage c.sizes (clipBounds c.lo c.hi) (finalizeT c t)).get := by
   have hag : AgreeOn c.sizes (runStage c.sizes (clipBounds c.lo c.hi) (finalizeT c t)).get
       (clipBounds c.lo c.hi (finalize c t.get)) :=
     runStage_agree (clipBounds_local c.sizes c.lo c.hi)
       (finalizeT_agree c (by rw [hnt]; exact fun _ h => (by cases h)) (AgreeOn.refl _ _))
-  obtain ⟨h1, h2, _, h4⟩ := C01_strict_edgeworth_class c hwf hnt t.get
+  obtain ⟨h1, h2, _, h4⟩ := C01_strict_edgeworth_class_d c hwf hnt t.get
   refine ⟨fun d hd hm => (h1 d hd hm).congr hag.symm, fun tr htr => EdgeOK.congr hag.symm (h2 tr htr),
     by rw [hnt]; exact fun _ h => (by cases h), fun idx hr => ?_⟩
   rw [hag idx hr]; exact h4 idx hr
+
+/-- class (A) under the original hypothesis `CfgWF` (no Edgeworth pair listed twice) -/
+theorem C01_strict_edgeworth_class (c : Cfg) (hwf : CfgWF c) (hnt : c.trapezoid = []) (w : W) :
+    Strict c (clipBounds c.lo c.hi (finalize c w)) := C01_strict_edgeworth_class_d c hwf.toD hnt w
+theorem C01_exec_edgeworth_class (c : Cfg) (hwf : CfgWF c) (hnt : c.trapezoid = []) (t : Table) :
+    Strict c (runStage c.sizes (clipBounds c.lo c.hi) (finalizeT c t)).get :=
+  C01_exec_edgeworth_class_d c hwf.toD hnt t
 
 /-- what `verify_hyperparameters` guarantees about the trapezoid trusts: lattice sizes ≥ 2 and no
 feature is both a main and a conditional feature -/
@@ -286,7 +323,7 @@ theorem C01_strict_mixed_nonmatching_class (c : Cfg) (hwf : CfgWF c) (hmx : Mixe
     unfold finalize
     simp only [hhas, hnotboth, Bool.and_false, Bool.not_true, Bool.false_eq_true, if_false]
   have hE := approxEdgeworth_spec c.sizes c.edgeworth
-    (fun tr h => (hwf.trust_wf tr (List.mem_append_left _ h)).1) hwf.compat
+    (fun tr h => (hwf.trust_wf tr (List.mem_append_left _ h)).1) hwf.toD.compat
     (approxMono c.sizes c.mono w) [] (by simp) (by simp) (by simp)
   have hT := approxTrapezoid_mb_spec (sizes := c.sizes) c.edgeworth
     (fun e h => (hwf.trust_wf e (List.mem_append_left _ h)).1) c.trapezoid
@@ -350,12 +387,12 @@ rank 2 — not monotone. This is exactly H_trap of DESIGN.md.** For every
 accepted configuration of this class and EVERY input kernel, the strict finalisation followed by the
 final clip returns a kernel that is monotone along every monotone dimension, satisfies every
 Edgeworth inequality (the matching ones included), every trapezoid inequality and the bounds. -/
-theorem C01_strict_mixed_class (c : Cfg) (hwf : CfgWF c) (hmx : MixedClassWF c) (w : W) :
+theorem C01_strict_mixed_class_d (c : Cfg) (hwf : CfgWFd c) (hmx : MixedClassWF c) (w : W) :
     Strict c (clipBounds c.lo c.hi (finalize c w)) := by
   by_cases hnt : c.trapezoid = []
-  · exact C01_strict_edgeworth_class c hwf hnt w
+  · exact C01_strict_edgeworth_class_d c hwf hnt w
   by_cases hne : c.edgeworth = []
-  · exact C01_strict_trapezoid_class c hwf ⟨hmx.sizes, hmx.roles⟩ hne w
+  · exact C01_strict_trapezoid_class c (hwf.toWF_of_nil hne) ⟨hmx.sizes, hmx.roles⟩ hne w
   have hclipIn : InBounds c.sizes c.lo c.hi (clipBounds c.lo c.hi (finalize c w)) :=
     fun idx _ => clipBounds_in c.lo c.hi hwf.bounds _ idx
   obtain ⟨t0, ht0⟩ : ∃ t, t ∈ c.trapezoid := by
@@ -414,17 +451,24 @@ theorem C01_strict_mixed_class (c : Cfg) (hwf : CfgWF c) (hmx : MixedClassWF c) 
     exact AffinePos_trapOK haff (hT.1 tr (Or.inr htr))
 
 /-- class (C) on the EXECUTABLE model that the correspondence check ties to the real code -/
-theorem C01_exec_mixed_class (c : Cfg) (hwf : CfgWF c) (hmx : MixedClassWF c) (t : Table) :
+theorem C01_exec_mixed_class_d (c : Cfg) (hwf : CfgWFd c) (hmx : MixedClassWF c) (t : Table) :
     Strict c (runStage c.sizes (clipBounds c.lo c.hi) (finalizeT c t)).get := by
   have hag : AgreeOn c.sizes (runStage c.sizes (clipBounds c.lo c.hi) (finalizeT c t)).get
       (clipBounds c.lo c.hi (finalize c t.get)) :=
     runStage_agree (clipBounds_local c.sizes c.lo c.hi)
       (finalizeT_agree c (fun tr h => by have := (hmx.sizes tr h).1; omega) (AgreeOn.refl _ _))
-  obtain ⟨h1, h2, h3, h4⟩ := C01_strict_mixed_class c hwf hmx t.get
+  obtain ⟨h1, h2, h3, h4⟩ := C01_strict_mixed_class_d c hwf hmx t.get
   refine ⟨fun d hd hm => (h1 d hd hm).congr hag.symm, fun tr htr => EdgeOK.congr hag.symm (h2 tr htr),
     fun tr htr => TrapOK.congr hag.symm (h3 tr htr), fun idx hr => ?_⟩
   rw [hag idx hr]; exact h4 idx hr
 
+
+/-- class (C) under the original hypothesis `CfgWF` (no Edgeworth pair listed twice) -/
+theorem C01_strict_mixed_class (c : Cfg) (hwf : CfgWF c) (hmx : MixedClassWF c) (w : W) :
+    Strict c (clipBounds c.lo c.hi (finalize c w)) := C01_strict_mixed_class_d c hwf.toD hmx w
+theorem C01_exec_mixed_class (c : Cfg) (hwf : CfgWF c) (hmx : MixedClassWF c) (t : Table) :
+    Strict c (runStage c.sizes (clipBounds c.lo c.hi) (finalizeT c t)).get :=
+  C01_exec_mixed_class_d c hwf.toD hmx t
 
 /-! ### non-vacuity: a rank-3, two-trust configuration with both directions meets `CfgWF` -/
 def exampleCfg : Cfg :=
